@@ -160,3 +160,105 @@ func stagedOrder(p *core.Prog, rep *core.Report) {
 	}
 	rep.Check(len(bad) == 0, "SO1", "staged-slice-stores", fmt.Sprintf("all %d stores to the staged slice are appends or resets", n), "", strings.Join(bad, "; "), false)
 }
+
+// cfg1OptionsImmutable: the scenario constants every path rule relies on (SyncStrategy, BatchOptions.Sync, IndexType ...)
+// are constants only if nobody writes them after construction.
+func cfg1OptionsImmutable(p *core.Prog, rep *core.Report) {
+	rep.Rule("CFG1", "configuration is immutable after construction: a field of Options / BatchOptions is stored only into a private copy (a local allocation, or a parameter that every call site binds to one); the copy held by an open DB / a live Batch is written as a whole and only by a function that returns the owner (constructor)")
+	R := p.R
+	isCfg := func(n *types.Named) bool { return n == R.Options || n == R.BatchOptions }
+	var private func(in *ssa.Function, v ssa.Value, d int) (bool, string)
+	private = func(in *ssa.Function, v ssa.Value, d int) (bool, string) {
+		path, root := core.FieldPath(v)
+		for _, o := range core.Origins(root) {
+			switch t := o.(type) {
+			case *ssa.Alloc:
+				// a local object (the configuration copy itself, or an owner still under construction in this function)
+				if t.Parent() != in {
+					return false, "the written object was allocated by " + core.FuncKey(t.Parent()) + " and is shared with this function"
+				}
+			case *ssa.Parameter:
+				if len(path) > 0 {
+					return false, "the configuration lives inside " + t.Name() + " (" + t.Type().String() + "), a shared object"
+				}
+				if d > 3 {
+					return false, "parameter chain too deep"
+				}
+				fn := t.Parent()
+				idx := -1
+				for i, pp := range fn.Params {
+					if pp == t {
+						idx = i
+					}
+				}
+				sites := libCallSites(p, fn)
+				if idx < 0 || len(sites) == 0 {
+					return false, "reached through parameter " + t.Name() + " of " + core.FuncKey(fn) + " (no resolvable call site)"
+				}
+				for _, cs := range sites {
+					if idx >= len(cs.Common().Args) {
+						return false, "call site arity"
+					}
+					if ok, why := private(cs.Parent(), cs.Common().Args[idx], d+1); !ok {
+						return false, why
+					}
+				}
+			default:
+				return false, fmt.Sprintf("the written object is not a private copy (%T in %s)", o, core.FuncKey(rootFn(o)))
+			}
+		}
+		return true, ""
+	}
+	var bad []string
+	n := 0
+	for _, fn := range p.LibFuncs() {
+		for _, b := range fn.Blocks {
+			for _, in := range b.Instrs {
+				f, base, _ := core.StoreField(in)
+				if f == nil {
+					continue
+				}
+				owner := fieldOwner(p, f)
+				switch {
+				case owner != nil && isCfg(owner):
+					n++
+					if ok, why := private(fn, base, 0); !ok {
+						bad = append(bad, fmt.Sprintf("%s.%s written in %s at %s: %s", owner.Obj().Name(), f.Name(), core.FuncKey(fn), p.InstrPos(in), why))
+					}
+				case owner == R.DB || owner == R.Batch:
+					if nt, _ := f.Type().(*types.Named); nt != nil && isCfg(nt) {
+						n++
+						if ok, _ := private(fn, base, 0); ok {
+							continue
+						}
+						ctor := false
+						res := fn.Signature.Results()
+						for i := 0; i < res.Len(); i++ {
+							if pt, ok := res.At(i).Type().(*types.Pointer); ok && pt.Elem() == types.Type(owner) {
+								ctor = true
+							}
+						}
+						if !ctor {
+							bad = append(bad, fmt.Sprintf("%s.%s replaced in %s at %s, which is not a constructor of %s", owner.Obj().Name(), f.Name(), core.FuncKey(fn), p.InstrPos(in), owner.Obj().Name()))
+						}
+					}
+				}
+			}
+		}
+	}
+	if n == 0 {
+		rep.Unk("VAC", "CFG1", "no store to a configuration field found (expected at least the constructor stores)", "", "vacuous")
+		return
+	}
+	rep.Check(len(bad) == 0, "CFG1", "options-immutable", fmt.Sprintf("%d stores to configuration fields, all into private copies or by constructors", n), "", strings.Join(sortedStr(bad), "; "), true)
+}
+
+func rootFn(v ssa.Value) *ssa.Function {
+	if in, ok := v.(ssa.Instruction); ok {
+		return in.Parent()
+	}
+	if pr, ok := v.(*ssa.Parameter); ok {
+		return pr.Parent()
+	}
+	return nil
+}
